@@ -309,7 +309,13 @@ def run_history(case, rec):
                 continue
             i = op["i"] % len(L.saved)
             L.simu.Set_Iter(i)
+            slot_changed = L.cur != L.saved[i][0]
             L.cur = L.saved[i][0]
+            if slot_changed and L.bc is not None:
+                # boundary conditions are lists of node ids of the mesh they were entered on: after a restore that
+                # switches to another mesh the history re-enters them (what they mean on the other mesh is not defined,
+                # and not asserted)
+                _apply_bc(L.simu, L.simu.mesh, L.slot.coord, L.bc, base_kind)
             u, v, a, algo_saved = L.saved[i][1:]
             pt = L.simu.problemType
             got = L.state()
